@@ -6,6 +6,7 @@ import numpy as np
 import pandas as pd
 import scipy.sparse as sp
 import warnings
+import copy
 import time
 import scipy.optimize as opt
 from numbers import Real
@@ -3454,9 +3455,10 @@ class RoConstr:
                 raise ValueError('Models mismatch.')
             sup_model.st(item)
 
-        self.support = sup_model.do_math(primal=False, obj=False)
+        constr = copy.copy(self)
+        constr.support = sup_model.do_math(primal=False, obj=False)
 
-        return self
+        return constr
 
     def le_to_rc(self, support=None):
 
@@ -4993,9 +4995,10 @@ class DecLinConstr(LinConstr):
 
     def forall(self, ambset):
 
-        self.ambset = ambset
+        constr = copy.copy(self)
+        constr.ambset = ambset
 
-        return self
+        return constr
 
 
 class DecBounds(Bounds):
@@ -5078,14 +5081,16 @@ class DecRoConstr(RoConstr):
             for constr in suppset:
                 if constr.model is not self.rand_model:
                     raise ValueError('Models mismatch.')
-            self.ambset = suppset
-            return self
+            constr = copy.copy(self)
+            constr.ambset = suppset
+            return constr
         else:
             if self.dec_model.top is not ambset.model:
                 raise ValueError('Models mismatch.')
 
-            self.ambset = ambset
-            return self
+            constr = copy.copy(self)
+            constr.ambset = ambset
+            return constr
 
 
 class DecLMIConstr(LMIConstr):
